@@ -287,6 +287,103 @@ func dependsOn(v ssa.Value, roots map[ssa.Value]bool, seen map[ssa.Value]bool) b
 	return false
 }
 
+// membershipPredicate: fn is func(x) bool that answers true exactly when x is a key of one of the two tables: on every path
+// a `true` result has a successful lookup of the parameter behind it, a `false` result has both lookups failed, and a
+// result that is the outcome of one lookup is returned only where the other lookup has failed.
+func membershipPredicate(fn *ssa.Function, want []string) bool {
+	if len(fn.Params) != 1 || len(fn.Blocks) == 0 || fn.Signature.Results().Len() != 1 {
+		return false
+	}
+	if bt, ok := fn.Signature.Results().At(0).Type().Underlying().(*types.Basic); !ok || bt.Kind() != types.Bool {
+		return false
+	}
+	ps, err := paths.Enumerate(fn, paths.Config{})
+	if err != nil || len(ps) == 0 {
+		return false
+	}
+	keyIsParam := func(lk *ssa.Lookup) bool {
+		k := lk.Index
+		for {
+			if cv, ok := k.(*ssa.Convert); ok {
+				k = cv.X
+				continue
+			}
+			break
+		}
+		return k == ssa.Value(fn.Params[0])
+	}
+	sawTrue, sawFalse := false, false
+	for _, p := range ps {
+		if p.Aborted != "" || len(p.Results) != 1 {
+			return false
+		}
+		okTrue, okFalse := map[string]bool{}, map[string]bool{}
+		for _, e := range p.Events {
+			switch e.Kind {
+			case paths.EvInstr:
+				switch e.Instr.(type) {
+				case *ssa.Store, *ssa.MapUpdate, *ssa.Call, *ssa.Go, *ssa.Defer, *ssa.Send:
+					return false // a predicate has no effects and calls nothing
+				}
+			case paths.EvBranch:
+				ex, ok := e.Cond.(*ssa.Extract)
+				if !ok || ex.Index != 1 {
+					return false
+				}
+				lk, ok := ex.Tuple.(*ssa.Lookup)
+				if !ok || !lk.CommaOk || !keyIsParam(lk) {
+					return false
+				}
+				g := globalOf(lk.X)
+				if g != want[0] && g != want[1] {
+					return false
+				}
+				if e.Taken {
+					okTrue[g] = true
+				} else {
+					okFalse[g] = true
+				}
+			}
+		}
+		switch r := p.Results[0].(type) {
+		case *ssa.Const:
+			if r.Value == nil || r.Value.Kind() != constant.Bool {
+				return false
+			}
+			if constant.BoolVal(r.Value) {
+				if len(okTrue) == 0 {
+					return false
+				}
+				sawTrue = true
+			} else {
+				if !(okFalse[want[0]] && okFalse[want[1]]) {
+					return false
+				}
+				sawFalse = true
+			}
+		case *ssa.Extract:
+			lk, ok := r.Tuple.(*ssa.Lookup)
+			if !ok || r.Index != 1 || !lk.CommaOk || !keyIsParam(lk) {
+				return false
+			}
+			g := globalOf(lk.X)
+			other := want[0]
+			if g == want[0] {
+				other = want[1]
+			} else if g != want[1] {
+				return false
+			}
+			if !okFalse[other] {
+				return false
+			}
+			sawTrue, sawFalse = true, true
+		default:
+			return false
+		}
+	}
+	return sawTrue && sawFalse
+}
+
 func chainRule(c *core.Ctx) {
 	type fdesc struct {
 		typ, name string
@@ -339,6 +436,37 @@ func chainRule(c *core.Ctx) {
 				// a septet loaded twice from the same element is one character: add every load of the same element address form
 			}
 		}
+		// a membership predicate of the package (func(r rune) bool: true iff r is in one of the two tables) consulted
+		// instead of the tables themselves
+		var predCalls []*ssa.Call
+		if f.encode {
+			for _, b := range fn.Blocks {
+				for _, ins := range b.Instrs {
+					call, ok := ins.(*ssa.Call)
+					if !ok {
+						continue
+					}
+					cal := call.Call.StaticCallee()
+					if cal == nil || cal.Pkg != fn.Pkg || cal.Object() == nil || cal.Object().Exported() || len(call.Call.Args) != 1 {
+						continue
+					}
+					if membershipPredicate(cal, want) {
+						predCalls = append(predCalls, call)
+						consulted[want[0]]++
+						consulted[want[1]]++
+						k := call.Call.Args[0]
+						for {
+							if cv, ok := k.(*ssa.Convert); ok {
+								k = cv.X
+								continue
+							}
+							break
+						}
+						roots[k] = true
+					}
+				}
+			}
+		}
 		var problems []string
 		for _, w := range want {
 			if consulted[w] == 0 {
@@ -371,6 +499,9 @@ func chainRule(c *core.Ctx) {
 					}
 				}
 			}
+		}
+		for _, pc := range predCalls {
+			okExtract[pc] = true
 		}
 		for _, b := range fn.Blocks {
 			ifi, ok := b.Instrs[len(b.Instrs)-1].(*ssa.If)
@@ -458,6 +589,22 @@ func chainRule(c *core.Ctx) {
 				}
 			}
 			// edge facts about lookup oks that hold on entry to b
+			predFalse := func(b *ssa.BasicBlock) bool {
+				for d := b; d.Idom() != nil; d = d.Idom() {
+					id := d.Idom()
+					ifi, ok := id.Instrs[len(id.Instrs)-1].(*ssa.If)
+					if !ok || id.Succs[0] == id.Succs[1] {
+						continue
+					}
+					_, viaFalse := viaEdge(id, d)
+					for _, pc := range predCalls {
+						if ifi.Cond == ssa.Value(pc) && viaFalse {
+							return true
+						}
+					}
+				}
+				return false
+			}
 			facts := func(b *ssa.BasicBlock) (trueOk, falseOk map[*ssa.Lookup]bool, danglingEsc bool) {
 				trueOk, falseOk = map[*ssa.Lookup]bool{}, map[*ssa.Lookup]bool{}
 				lenTests := 0 // comparisons of an index with len(...) on the way: the loop condition is one, a second one is the dangling-escape test
@@ -548,6 +695,9 @@ func chainRule(c *core.Ctx) {
 				for lk := range fOk {
 					tables[globalOf(lk.X)] = true
 				}
+				if predFalse(b) {
+					tables[want[0]], tables[want[1]] = true, true
+				}
 				switch {
 				case f.encode && !(tables[want[0]] && tables[want[1]]):
 					problems = append(problems, "the block at "+c.Prog.Pos(b.Instrs[0].Pos())+" "+reject+" although the character was not established absent from both "+want[0]+" and "+want[1])
@@ -593,6 +743,43 @@ func chainRule(c *core.Ctx) {
 			}
 			if emitted < 2 {
 				problems = append(problems, fmt.Sprintf("only %d looked-up characters reach a rune-wide sink (expected the default-table and the extension-table result)", emitted))
+			}
+		}
+		for _, pc := range predCalls {
+			for _, b := range fn.Blocks {
+				ifi, isIf := b.Instrs[len(b.Instrs)-1].(*ssa.If)
+				if !isIf || ifi.Cond != ssa.Value(pc) {
+					continue
+				}
+				refused := false
+				blk := b.Succs[1]
+				for n := 0; n < 4 && blk != nil && !refused; n++ {
+					for _, ins := range blk.Instrs {
+						switch x := ins.(type) {
+						case *ssa.Call:
+							if bi, isB := x.Call.Value.(*ssa.Builtin); isB && bi.Name() == "append" {
+								refused = true
+							}
+						case *ssa.Return:
+							for _, rv := range x.Results {
+								if isErrorType(rv.Type()) && !paths.IsNilConst(rv) {
+									refused = true
+								}
+								if kc, isK := rv.(*ssa.Const); isK && kc.Value != nil && kc.Value.Kind() == constant.Bool && !constant.BoolVal(kc.Value) {
+									refused = true
+								}
+							}
+						}
+					}
+					if len(blk.Succs) == 1 {
+						blk = blk.Succs[0]
+					} else {
+						blk = nil
+					}
+				}
+				if !refused {
+					problems = append(problems, "a character the membership predicate rejects is not refused at "+c.Prog.Pos(pc.Pos()))
+				}
 			}
 		}
 		// rejection: where a table lookup fails, the character is refused - listed as invalid (validators), answered with an
